@@ -53,6 +53,7 @@ class _State:
         self.progress = None       # multiprocessing.RawValue('q'): bumped on every line event
         self.yield_every = 0       # >0: time.sleep(0) every n-th event (forces GIL hand-offs)
         self.instr_offsets = {}    # code -> offsets of attribute access instructions with INSTRUCTION hooks
+        self.gates = {}            # name -> {"skip": k, "used": bool, "arrived": Event, "release": Event}
 
 
 S = _State()
@@ -109,6 +110,18 @@ def _on_line(code, line):
                     if sl is not None:
                         with sl.get_lock():
                             sl.value -= 1
+            elif act[0] == "gate":
+                # a rendezvous: the thread reports that it stands at this statement and stays there until it is released
+                # (the k-th statement that carries the gate, k = gate["skip"]); used once
+                g = st.gates.get(act[1])
+                if g is not None and not g["used"]:
+                    if g["skip"] > 0:
+                        g["skip"] -= 1
+                    else:
+                        g["used"] = True
+                        g["site"] = (qn, rel)
+                        g["arrived"].set()
+                        g["release"].wait(g.get("timeout", 20))
             elif act[0] == "raise":
                 raise InjectedFault(f"failpoint at {role}:{qn}+{rel}#{n}")
             elif act[0] == "raise_os":
